@@ -22,7 +22,7 @@ Definition rows_eqb := list_eqb bytes_eqb.
 Definition oeqb := outcome_eqb rows_eqb.
 
 Definition valid_size (data : list N) (size : Z) : bool :=
-  (0 <? size)%Z && (Z.rem (Z.of_nat (length data)) size =? 0)%Z.
+  (0 <? size)%Z && negb (Nat.eqb (length data) 0) && (Z.rem (Z.of_nat (length data)) size =? 0)%Z.
 
 (* what the specification says the call must return *)
 Definition expected (data : list N) (size red : Z) : option (outcome (list (list N))) :=
